@@ -461,6 +461,9 @@ func (_this *Writer) WriteDecimalFloat(value compact_float.DFloat) {
 		value.Coefficient /= 10
 		value.Exponent++
 	}
+	if value.Coefficient == 0 && !value.IsSpecial() {
+		value.Exponent = 0
+	}
 	_this.WriteStringNotLF(value.Text('g'))
 }
 
